@@ -490,7 +490,7 @@ func TestVerif_C07_h1wire(t *testing.T) {
 		peer.mu.Unlock()
 	}
 	all := c07ByteSet(true)
-	strat := c07ByteSet(verifh.Thorough())
+	strat := c07ByteSet(false) // header-value offsets: the stratified set in both tiers (thorough: every pair, every reacting option set)
 	rot := []string{"plain", "dump", "everything", "autodecode-all", "noautoread", "result"}
 	k := int(verifh.Seed())
 	wireAll := map[string]bool{"hn-mid": true, "hn-only": true, "hn-1xx": true, "tn-mid": true}
@@ -521,6 +521,8 @@ func TestVerif_C07_h1wire(t *testing.T) {
 			if thin < 1 {
 				thin = 1
 			}
+		} else if hp.fresh {
+			thin = 4 // a fresh client (and a QUIC dial for every usable entry) per case
 		}
 		for off := 0; off <= len(hp.value); off++ {
 			for _, b := range strat {
